@@ -22,6 +22,7 @@ import (
 	"github.com/echovault/sugardb/internal/config"
 	"log"
 	"sync"
+	"sync/atomic"
 	"time"
 
 	"github.com/hashicorp/memberlist"
@@ -51,6 +52,7 @@ type MemberList struct {
 	noOfNodesMut   sync.RWMutex
 	noOfNodes      int
 	memberList     *memberlist.Memberlist
+	forwardSeq     atomic.Uint64 // Number of data mutations this node has forwarded.
 }
 
 func NewMemberList(opts Opts) *MemberList {
@@ -160,10 +162,13 @@ func (m *MemberList) ForwardDeleteKey(ctx context.Context, key string) {
 func (m *MemberList) ForwardDataMutation(ctx context.Context, cmd []byte) {
 	connId, _ := ctx.Value(internal.ContextConnID("ConnectionID")).(string)
 	database, _ := ctx.Value("Database").(int)
+	// The hash identifies this forwarded mutation, not its text: a later broadcast with the same hash
+	// replaces a queued one, and the same command sent twice is two mutations.
+	id := fmt.Sprintf("%s/%d/", m.options.Config.ServerID, m.forwardSeq.Add(1))
 	m.broadcastQueue.QueueBroadcast(&BroadcastMessage{
 		Action:      "MutateData",
 		Content:     cmd,
-		ContentHash: md5.Sum(cmd),
+		ContentHash: md5.Sum(append([]byte(id), cmd...)),
 		ConnId:      connId,
 		Database:    database,
 		NodeMeta: NodeMeta{
